@@ -250,6 +250,27 @@ def chunk_blobs(chunk, acc):
         if not (isinstance(got, str) and got.startswith("EXC ValueError")):
             sig = "C06/decrypt/bad-blob-accepted" if not isinstance(got, str) else "C06/decrypt/wrong-exception/" + got.split()[1].rstrip(":")
             acc.fail(sig, {"kind": "blob", "bits": bits, "name": name, "blob": blob.hex(), "which": acc.seed % 2}, "ValueError", got if isinstance(got, str) else repr(got)[:200])
+    # the same blobs arriving as the metadata of a check-in at a traffic decoder that holds the private key (signature
+    # verification on and off), each presented twice: rejected with ValueError both times, nothing is reported
+    from dissect.cobaltstrike import beacon
+    from vmc.ref import config as RC
+
+    bconfig = beacon.BeaconConfig(RC.http_block(key_bits=bits, key_which=acc.seed % 2))
+    for verify in (True, False):
+        dec = c2.C2Http(bconfig, rsa_private_key=key, verify_hmac=verify)
+        for name, blob in blobs:
+            if not blob:
+                continue  # (no metadata at all is not a blob)
+            req = dec.transform_get.transform(c2.C2Data(metadata=blob), request=c2.HttpRequest(method=dec.get_verb, uri=dec.get_uris[0], params={}, headers={}, body=b""))
+            for attempt in (1, 2):
+                acc.states += 1
+                acc.transitions += 1
+                got = call(lambda: [type(p).__name__ for p in dec.iter_recover_http(req)])
+                acc.case(("decoder", verify, name, attempt), nontrivial=True, outcome=str(got)[:40])
+                if not (isinstance(got, str) and got.startswith("EXC ValueError")):
+                    sig = "C06/decoder/bad-blob-" + ("accepted" if got else "ignored") if not isinstance(got, str) else "C06/decoder/wrong-exception/" + got.split()[1].rstrip(":")
+                    acc.fail(sig + ("/second-time" if attempt == 2 else ""), {"kind": "blob_decoder", "bits": bits, "name": name, "verify_hmac": verify, "attempt": attempt, "which": acc.seed % 2}, "ValueError", got if isinstance(got, str) else repr(got)[:200])
+                    break
     acc.sample({"rsa_bits": bits, "blobs": [n for n, _ in blobs[:8]] + ["...", "wrong-magic-<len>", "other-key"]})
 
 
@@ -326,6 +347,8 @@ def replay(case):
     a = Acc("replay", "quick", 0)
     if case["kind"] == "roundtrip":
         roundtrip(a, c2, case["bits"], case["which"], case["values"], bytes.fromhex(case["info"]), bytes.fromhex(case["aes_rand"]), "replay", preset_size=case.get("preset_size"), reuse=None if case.get("reuse") is None else bytes.fromhex(case["reuse"]))
+    elif case["kind"] == "blob_decoder":
+        chunk_blobs({"bits": case["bits"]}, a)
     elif case["kind"] == "blob":
         got = call(c2.decrypt_metadata, bytes.fromhex(case["blob"]), K.key(case["bits"], case["which"]))
         ok = isinstance(got, str) and got.startswith("EXC ValueError")
